@@ -31,7 +31,7 @@ pub fn control_witnesses(cfg: &TokCfg) -> Vec<String> {
     };
     let root = key(&[]).unwrap();
     found.lock().unwrap().insert(root.clone(), vec![]);
-    let bcfg = BfsCfg { max_depth: 12, max_states: 100_000, max_secs: 20.0 };
+    let bcfg = BfsCfg { max_depth: 12, max_states: 100_000, max_secs: 300.0 };
     bfs(
         vec![(vec![], digest(&root))],
         lex.len(),
@@ -43,8 +43,7 @@ pub fn control_witnesses(cfg: &TokCfg) -> Vec<String> {
                 None => Step::Disabled,
                 Some(k) => {
                     let d = digest(&k);
-                    let mut f = found.lock().unwrap();
-                    f.entry(k).or_insert(nh);
+                    keep_min_witness(&mut found.lock().unwrap(), k, nh);
                     Step::Next(d)
                 },
             }
